@@ -21,7 +21,8 @@ Inductive c13_step :=
 | SExec (now : N) (o : op) (ok : bool)
 | SStatic (stages : result (list stage_resp))                 (* Stages *)
           (stage_k : list (result stage_resp))                (* Stage{0..3} *)
-          (members_k : list (result (list (N * N))))          (* Members{0..3, limit 100} *)
+          (members_k : list (result (list (N * N))))          (* Members{0..3} walked to the end in pages of 100 *)
+| SPage (id : N) (start_after limit : option N) (out : result (list (N * N)))   (* one Members page *)
 | STime (nows : list N) (obs : tobs).    (* the same answers at each of these instants *)
 
 (* probes: (address id, Merkle fold oracle) *)
@@ -73,6 +74,8 @@ Fixpoint run_steps (w : wl) (probes : list (N * option N)) (steps : list c13_ste
       list_eqb (result_eqb resp_eqb) (map (q_stage w) ids4) sk &&
       list_eqb (result_eqb (list_eqb pair_eqb)) (map (q_members w) ids4) mk &&
       run_steps w probes r
+  | SPage id sa lim out :: r =>
+      result_eqb (list_eqb pair_eqb) (q_members_page w id sa lim) out && run_steps w probes r
   | STime nows obs :: r =>
       forallb (fun now => tobs_eqb (model_tobs w now probes) obs) nows && run_steps w probes r
   end.
